@@ -251,6 +251,23 @@ CHECKS['C18'] = {
     'technique': 'bounded exhaustive configuration-space + call-history exploration against a reference model; linearity decides all inputs via the full matrix',
 }
 
+CHECKS['C12'] = {
+    'text': 'Linear solvers on ALL symmetric positive definite 2x2 / 3x3 integer matrices over {-1,0,1,2} (plain and '
+            'ill-conditioned, unweighted / constant / array-weighted spaces) and all full-rank small rectangular '
+            'matrices x every rhs of V^m x 2 starts: CG energy-norm error strictly decreasing and exact after n steps, '
+            'CGN and Landweber residual non-increasing over a step-size grid, Kaczmarz distance to the solution '
+            'non-increasing (both orders, both callback loops), steepest descent with backtracking never increases the '
+            'objective, Armijo condition of the line search. Non-smooth solvers (PDHG, Douglas-Rachford PD, '
+            'forward-backward PD, (accelerated) proximal gradient, linearized ADMM) on 16 problem families built '
+            'backwards from certified KKT pairs (x*, y*) over all x* of V^n: fixed point, result == last callback iterate, '
+            'bounded liveness (KKT residual through reference sub-differentials and distance to x* within K = 4000). '
+            'power_method_opnorm <= true norm for all basis / alphabet starts x maxiter 1..20 x weighted spaces.',
+    'note': 'convergence is a limit statement: only the horizon K = 4000 is decided (correct solvers need <= 1134 on every '
+            'pool member); monotonicity of PDHG / PG is a diagnostic only; randomness owned (explicit starts, seeded '
+            'default step rules whose verdict does not depend on the stream)',
+    'technique': 'bounded exhaustive configuration-space exploration with per-iterate invariants and a bounded-liveness horizon',
+}
+
 _PENDING = 'check under construction in this session; not claimed until it runs quietly on the unchanged tree'
 NOT_APPLICABLE = dict((p, _PENDING) for p in
-                      ['C12'])
+                      [])
